@@ -754,6 +754,52 @@ def m_floordiv_agg(rec, params):
         and i.get("class") == "floordiv-assign-aggregates-with-mult" and len(i.get("values", [])) >= 2
 
 
+def m_unary_dropped(rec, params):
+    i = rec.get("input", {})
+    return rec.get("key") == "operand-evaluation" and isinstance(i, dict) \
+        and i.get("class") == "unary-comparison-operand-dropped" and i.get("op") in COMPARE and i.get("arity") == 1 \
+        and i.get("macro_evaluations") == [0] and i.get("function_evaluations") == [1]
+
+
+def evaluation_runs(chk, hy, comp, max_n):
+    """operands with an observable evaluation: the macro form and the call of the hy.pyops function must evaluate
+    every operand the same number of times when no comparison short-circuits (all results truthy here)"""
+    import types
+    for name in OPS:
+        for n in range(1, min(max_n, 3) + 1):
+            if comp.fn(name, n)[0] == "syntax":
+                continue
+            vals = {"in": ["a", "ab", ["ab"]], "not-in": [1, [2], [[3]]], "is": [None] * 3, "is-not": [1, "a", 2.5],
+                    "!=": [1, 2, 3], "<": [1, 2, 3], "<=": [1, 2, 3], ">": [3, 2, 1], ">=": [3, 2, 1], "=": [1, 1, 1],
+                    "not": [0], "bnot": [1], "**": [2, 1, 1], "@": [None] * 3}.get(name, [6, 2, 1])
+            if name == "@" and n > 1:
+                continue
+            outs = []
+            for head in (name, "hy.pyops." + name):
+                mod = types.ModuleType("c03_eval")
+                mod.log = []
+
+                def ev(i, log=mod.log):
+                    log.append(i)
+                    return vals[i]
+                mod.ev = ev
+                # each operand is ONE call expression (a form compiling to statements would keep its statements)
+                args = " ".join("(ev %d)" % i for i in range(n))
+                r = run3(lambda: hy.eval(hy.read("(%s %s)" % (head, args)), module=mod))
+                outs.append((r, [mod.log.count(i) for i in range(n)]))
+            chk.count("operand-evaluation")
+            chk.case(("evalcount", name, n), nontrivial=True)
+            (r_m, c_m), (r_f, c_f) = outs
+            if r_m != r_f or c_m != c_f:
+                desc = {"op": name, "arity": n, "form": "(%s (ev 0) ...) with ev logging its calls" % name,
+                        "macro_result": repr(r_m), "function_result": repr(r_f),
+                        "macro_evaluations": c_m, "function_evaluations": c_f}
+                if name in COMPARE and n == 1 and r_m == r_f:
+                    desc["class"] = "unary-comparison-operand-dropped"
+                chk.fail("operand-evaluation", desc, repr((r_m, c_m)), repr((r_f, c_f)),
+                         "(%s (do (print 1) 5)) prints nothing, (hy.pyops.%s (do (print 1) 5)) prints 1" % (name, name))
+
+
 def smoke(chk, hy, comp):
     """the two observations of DESIGN section 10, replayed literally"""
     import hy.pyops
@@ -773,11 +819,13 @@ def run(chk):
         "an operator's 'documented Python expansion' is the row of the hy.pyops docstring for that arity (nullary, unary, "
         "binary, n-ary template instantiated); where there is no unary row the n-ary template with n=1 (the operand)",
         "(= x) with one operand compiles to True without evaluating x (the function evaluates it): invisible for "
-        "operand values, noted only",
+        "operand values; checked with operands that log their evaluation and recorded as a known finding (the pinned "
+        "test suite relies on it, so it is not repaired)",
         "exceptions are compared by type, results by type and repr (floats by hex, sets order-free)",
     ]
     chk.matchers["c03_compare_eager"] = m_compare_eager
     chk.matchers["c03_floordiv_agg"] = m_floordiv_agg
+    chk.matchers["c03_unary_dropped"] = m_unary_dropped
     proved = chk.prove("Props/C03.v", ["Props/C03.vo", "Ops/OperatorsSym.vo"], [ops_tables.translate])
     thorough = chk.tier == "thorough"
     hy = vlib.use_repo_in_process()
@@ -819,6 +867,7 @@ def run(chk):
     real_runs(chk, hy, comp, docs, max_n, 400 if thorough else 36)
     aug_runs(chk, hy, comp, docs, max_n, 120 if thorough else 14)
     shadow_runs(chk, hy, comp, 6 if thorough else 5, 12 if thorough else 3)
+    evaluation_runs(chk, hy, comp, max_n)
     smoke(chk, hy, comp)
     from hy.reader.mangling import mangle
     chk.obligation("mangle is injective on the comparison operator names (c_ops is re-keyed by mangle)",
